@@ -573,11 +573,17 @@ def c12(tier, seed):
     if tier == "quick":
         t2 = session("c12-latepsk", PskMode="only", LatePsk=True, PubLens=[32], InitPads=[False], Variants=["tr"],
                      TrafficMode="short", PatSet=["NN", "XX", "IK", "N", "X1X1", "K1K", "KX"])
+        t2b = session("c12-psk-faults", PskMode="only", FaultBudget=1, FaultKinds=["wbuf", "ralt"], PubLens=[32],
+                      InitPads=[False], Variants=["tr"], TrafficMode="short", PatSet=["NN", "IK", "N", "X1X1"])
     else:
         t2 = session("c12-latepsk", PskMode="only", LatePsk=True, PubLens=[32], InitPads=[False], Variants=["tr"],
                      TrafficMode="short")
+        t2b = session("c12-psk-faults", PskMode="only", FaultBudget=1, FaultKinds=["wbuf", "ralt", "routbuf"], PubLens=[32],
+                      InitPads=[False], Variants=["tr"], TrafficMode="short")
     r2 = replay("C12", t2, seed, 1, threads=14)
-    res = merge("model_checking", [t1, t2], [r1, r2],
+    r2b = replay("C12", t2b, seed, 1, threads=14)
+    res = merge("model_checking", [t1, t2, t2b], [r1, r2, r2b],
+                "a supplied PSK stays supplied across failing calls (psk-bearing messages with a failing call, then the retry); "
                 "complete enumeration by TLC (spec/MC_Builder.tla): 38 patterns x 2 roles x 4 subsets of supplied static keys x 2 DH functions (25519, P-256) "
                 "x modifier lists {none, psk0..psk9, fallback, psk1+fallback} x resolver lacking {nothing, rng, dh, cipher, "
                 "hash} = 39 520 build cases, each built on the real code (stub resolver for the missing primitive) and the "
